@@ -33,7 +33,7 @@ RULE = ('tree part: every nested dict of the listed families (family F1: keys {a
         'family F2: keys {a,b,c} (NNX: plus int keys 0,1; keys of one dict all str or all int), '
         'leaves {int, array, None, empty dict}, depth <= 3, <= 2 keys per level, at most N non-root '
         'nodes) x container (dict, FrozenDict; NNX also State) x sep in {None,"/","."} x '
-        'keep_empty_nodes x is_leaf in {none, depth>=1, depth>=2, has-key-a, is-empty}; per case: '
+        'keep_empty_nodes x is_leaf in {none, depth>=1, depth>=2, has-key-a, is-empty, depth==2, last-key-is-b (predicates that read the path as a tuple of keys)}; per case: '
         'flatten vs reference key for key, unflatten(flatten) vs reference pruning, '
         'flatten(unflatten(F)) == F, unflatten of the reversed flat dict, flatten_to_sequence, '
         'path_aware_map call log and result.  state part: universes of 4 (thorough: also 5) '
@@ -55,7 +55,7 @@ ASSUMPTIONS = [
 ]
 
 SEPS = [None, '/', '.']
-PRED_NAMES = ['none', 'd1', 'd2', 'ka', 'em']
+PRED_NAMES = ['none', 'd1', 'd2', 'ka', 'em', 'e2', 'lb']
 VCAP = 8  # violations recorded per (unit, clause); enumeration is smallest-first
 
 
@@ -65,14 +65,14 @@ def bounds(tier):
                 families={'F1': 'keys a,b; leaves int,{}; <= 8 non-root nodes',
                           'F2tu': 'keys a,b,c; leaves int,array,None,{}; <= 4 non-root nodes',
                           'F2nnx': 'keys a,b,0,1; leaves int,array,None,{}; <= 4 non-root nodes'},
-                seps=3, keep_empty_nodes=2, is_leaf=5, containers={'tu': 2, 'nnx': 3},
+                seps=3, keep_empty_nodes=2, is_leaf=7, containers={'tu': 2, 'nnx': 3},
                 universes=['U1', 'U2'], schemes=3, filter_alphabet=len(R.FILTERS),
                 filter_tuple_len=2)
   return dict(depth=3, keys_per_level=2,
               families={'F1': 'keys a,b; leaves int,{}; all sizes (<= 14 non-root nodes)',
                         'F2tu': 'keys a,b,c; leaves int,array,None,{}; <= 6 non-root nodes',
                         'F2nnx': 'keys a,b,c,0,1; leaves int,array,None,{}; <= 5 non-root nodes'},
-              seps=3, keep_empty_nodes=2, is_leaf=5, containers={'tu': 2, 'nnx': 3},
+              seps=3, keep_empty_nodes=2, is_leaf=7, containers={'tu': 2, 'nnx': 3},
               universes=['U1', 'U2', 'U3'], schemes=3, filter_alphabet=len(R.FILTERS),
               filter_tuple_len=3)
 
